@@ -304,3 +304,78 @@ func TestC05ReplayFailedMinerPlayIrreversibleUpdate(t *testing.T) {
 		t.Errorf("REPRODUCED[failed-miner-play]: the play failed (%v) but the miner's balance moved from %s to %s", perr, bobBefore, bobAfter)
 	}
 }
+
+// a database whose batches cannot be written (injected storage write error)
+type c5mWriteFailDB struct{ kvdb.Database }
+type c5mWriteFailBatch struct{ kvdb.Batch }
+
+func (d *c5mWriteFailDB) NewBatch() kvdb.Batch { return &c5mWriteFailBatch{Batch: d.Database.NewBatch()} }
+func (b *c5mWriteFailBatch) Write() error      { return errors.New("injected write error") }
+
+// A block whose batch cannot be written fails to play. The irreversible height it had staged
+// (in the meta's staging copy) must not surface later: here a walk to a sibling of the tip
+// publishes the staging copy, and the node reports a height no applied block accounts for and
+// that is not on disk.
+func TestC05ReplayFailedPlayLeavesStagedHeight(t *testing.T) {
+	st, done := c5NewState(t)
+	defer done()
+	st.meta.Meta.IrreversibleSlideWindow = 1
+	st.meta.MetaTmp.IrreversibleSlideWindow = 1
+	ledger := st.sctx.Ledger
+	minerKey, kerr := ecdsa.GenerateKey(elliptic.P256(), rand.Reader)
+	if kerr != nil {
+		t.Fatal(kerr)
+	}
+	mkBlock := func(parent []byte, note string) *pb.InternalBlock {
+		award, err := txn.GenerateAwardTx(Users["bob"].Address, "1000", []byte(note))
+		if err != nil {
+			t.Fatal(err)
+		}
+		pblk, err := ledger.QueryBlock(parent)
+		if err != nil {
+			t.Fatal(err)
+		}
+		block, err := ledger.FormatFakeBlock([]*pb.Transaction{award}, []byte("miner"), minerKey, time.Now().UnixNano(), 0, 0, parent, big.NewInt(0), pblk.Height+1)
+		if err != nil {
+			t.Fatal(err)
+		}
+		if cs := ledger.ConfirmBlock(block, false); !cs.Succ {
+			t.Fatalf("confirm %s: %v", note, cs.Error)
+		}
+		return block
+	}
+	root := st.GetLatestBlockid()
+	b1 := mkBlock(root, "b1")
+	if err := st.PlayAndRepost(b1.Blockid, false, false); err != nil {
+		t.Fatal(err)
+	}
+	b2 := mkBlock(b1.Blockid, "b2")
+	if err := st.PlayAndRepost(b2.Blockid, false, false); err != nil {
+		t.Fatal(err)
+	}
+	if h := st.meta.GetIrreversibleBlockHeight(); h != 1 {
+		t.Fatalf("setup: irreversible height %d, want 1", h)
+	}
+	// b3 extends b2; its batch cannot be written
+	b3 := mkBlock(b2.Blockid, "b3")
+	realDB := st.ldb
+	st.ldb = &c5mWriteFailDB{Database: realDB}
+	perr := st.PlayAndRepost(b3.Blockid, false, false)
+	st.ldb = realDB
+	if perr == nil {
+		t.Fatal("the play of b3 must fail")
+	}
+	if h := st.meta.GetIrreversibleBlockHeight(); h != 1 {
+		t.Errorf("REPRODUCED[staged-height]: right after the failed play the irreversible height is %d, want 1", h)
+	}
+	// a sibling of the tip: the walk undoes b2 (height 2 > 1, allowed) and plays c2
+	c2 := mkBlock(b1.Blockid, "c2")
+	if err := st.Walk(c2.Blockid, false); err != nil {
+		t.Fatalf("walk to the sibling: %v", err)
+	}
+	got := st.meta.GetIrreversibleBlockHeight()
+	t.Logf("after failed play of b3 (height 3) and a walk b2 -> c2: irreversible height %d (blocks applied so far reach height 2, window 1)", got)
+	if got != 1 {
+		t.Errorf("REPRODUCED[staged-height]: the failed play of b3 left its staged irreversible height behind: the node reports %d, no applied block accounts for more than 1", got)
+	}
+}
